@@ -95,6 +95,8 @@ func (o c08Op) String() string {
 		return fmt.Sprintf("complete(%s,%s)", o.U, o.Spec)
 	case "part-refused":
 		return fmt.Sprintf("uploadPartWithShortBody(%s,%d)", o.U, o.N)
+	case "partcopy-obj":
+		return fmt.Sprintf("uploadPartCopyOfAssembledObject(%s,%d,range=%q)", o.U, o.N, o.Range)
 	}
 	return o.Kind + "(" + o.U + ")"
 }
@@ -126,6 +128,8 @@ func c08Alphabet(thorough bool) []c08Op {
 	}
 	ops = append(ops, c08Op{Kind: "complete", U: "u2", Spec: "1"}, c08Op{Kind: "complete", U: "u2", Spec: "1,2"}, c08Op{Kind: "complete", U: "u3", Spec: "1"},
 		c08Op{Kind: "abort", U: "u1"}, c08Op{Kind: "abort", U: "u2"},
+		// the source is the object another upload assembled (its ETag is a multipart ETag, not the MD5 of its bytes)
+		c08Op{Kind: "partcopy-obj", U: "u3", N: 1, Range: ""}, c08Op{Kind: "partcopy-obj", U: "u3", N: 1, Range: "whole"},
 		c08Op{Kind: "putdir", U: "u3"}, c08Op{Kind: "part-refused", U: "u1", N: 1, Data: "B"}, c08Op{Kind: "complete-other-key", U: "u1"}, c08Op{Kind: "abort-other-key", U: "u1"})
 	return ops
 }
@@ -234,6 +238,36 @@ func (c *c08Runner) apply(m *c08Model, o c08Op) string {
 			return "upload-part-copy-wrong-etag(range " + rangeClass(o.Range) + ")"
 		}
 		up.Parts[o.N] = c08Part{Data: want, ETag: getS(res.ETag)}
+	case "partcopy-obj":
+		// u3 (key k2) copies the whole of k1, the object assembled by u1 / u2, if there is one
+		src, have := m.Objects["k1"]
+		rg := o.Range
+		if rg == "whole" {
+			rg = fmt.Sprintf("bytes=0-%d", len(src.Data)-1)
+			if !have {
+				rg = "bytes=0-0"
+			}
+		}
+		res, err := p.UploadPartCopy(st.ctx(), &s3.UploadPartCopyInput{Bucket: sp(c08Bucket), Key: &key, UploadId: &id, PartNumber: i32(int32(o.N)), CopySource: sp(c08Bucket + "/k1"), CopySourceRange: &rg, ExpectedBucketOwner: sp("acc1")})
+		if !exists {
+			if !noSuch(err) && !(err != nil && !have) {
+				return "upload-part-copy-to-finished-upload:" + errOrOK(err)
+			}
+			return ""
+		}
+		if !have {
+			if err == nil {
+				return "upload-part-copy-of-missing-source-accepted"
+			}
+			return ""
+		}
+		if err != nil {
+			return "upload-part-copy-of-assembled-object-failed:" + errClassAPI(err)
+		}
+		if strings.Trim(getS(res.ETag), `"`) != md5hex(src.Data) {
+			return "upload-part-copy-wrong-etag(assembled source, " + map[bool]string{true: "no range", false: "whole range"}[o.Range == ""] + ")"
+		}
+		up.Parts[o.N] = c08Part{Data: src.Data, ETag: getS(res.ETag)}
 	case "complete":
 		var nums []int
 		wrongETag := false
@@ -613,7 +647,7 @@ func C08(r *ck.Run) {
 	if r.Thorough() {
 		depth = 4
 	}
-	r.Rule(fmt.Sprintf("breadth-first search over every program of length <= %d of 42 (thorough 44) operations — a directory object put at the key of an upload with a trailing slash (the completion must not replace it), uploadPart with a short body (refused), completion and abort naming another key (refused), uploadPart (2 uploads of the same key + 1 of another key, part numbers 1-2 and sparse 5, 9, 10-byte / 12-byte / 3-byte bodies, re-uploads included), uploadPartCopy with 9 source ranges (whole, sub-ranges, last byte, end equal to and beyond the source size, garbage), complete with 11 part specifications (valid, reordered, repeated, missing, wrong ETag, too-small non-last part), abort — on a real posix backend (minimum part size shrunk to 8 bytes by the overlay), states deduplicated on the reference multipart model; after EVERY step a second backend instance checks GET of both keys (bytes, multipart ETag, initiation metadata), ListObjectsV2, ListParts of every upload (max-parts 1000 and 1) and ListMultipartUploads (max-uploads 1000 and 1, markers followed, markers that name no upload in progress); distinct = distinct state", depth))
+	r.Rule(fmt.Sprintf("breadth-first search over every program of length <= %d of 44 (thorough 46) operations — uploadPartCopy whose source is the object another upload assembled (multipart ETag; no range / the whole range), a directory object put at the key of an upload with a trailing slash (the completion must not replace it), uploadPart with a short body (refused), completion and abort naming another key (refused), uploadPart (2 uploads of the same key + 1 of another key, part numbers 1-2 and sparse 5, 9, 10-byte / 12-byte / 3-byte bodies, re-uploads included), uploadPartCopy with 9 source ranges (whole, sub-ranges, last byte, end equal to and beyond the source size, garbage), complete with 11 part specifications (valid, reordered, repeated, missing, wrong ETag, too-small non-last part), abort — on a real posix backend (minimum part size shrunk to 8 bytes by the overlay), states deduplicated on the reference multipart model; after EVERY step a second backend instance checks GET of both keys (bytes, multipart ETag, initiation metadata), ListObjectsV2, ListParts of every upload (max-parts 1000 and 1) and ListMultipartUploads (max-uploads 1000 and 1, markers followed, markers that name no upload in progress); distinct = distinct state", depth))
 	r.Assume("backend.MinPartSize is 8 bytes in this build (overlay constant), everything else is the real code; upload listings are compared as sets plus pagination completeness")
 	cfgs := []pxCfg{{}}
 	if r.Thorough() {
